@@ -283,17 +283,18 @@ def run_case(case, rec):
                   and abs(results["volume_ratio"] - ratio) <= 1e-12*abs(ratio),
                   dict(ctx, reported=[results["volume"], results["volume_ratio"]], P=[float(Vs), float(ratio)]))
         rep_R = float(results["radius_effective"])
-        if mode > 0 and not sas.is_python(pi):
+        if not sas.is_python(pi):
             # the radius S was evaluated at is the documented weighted mean over P's mesh (weights as retained by
             # the cutoff, times |cos dtheta| under jitter), computed here from the model's own C functions
             mesh = direct_model.get_mesh(pi, dict(pp, scale=1.0, background=0.0), dim=dim)
             q1 = [float(q[0][0])] if dim == "1d" else ([float(q[0][0])], [float(q[1][0])])
             ev = sas.Oracle(pi).evaluate(mesh, q1, dim, cut, mode)
-            if ev["weight"] > 0:
+            if ev["weight"] > 0 and mode > 0:
                 okR = abs(rep_R - ev["radius"]) <= 1e-9*abs(ev["radius"]) + 1e-300
                 rec.check("S_radius_is_weighted_mean_of_P_radius", okR,
                           None if okR else dict(ctx, reported_radius_effective=rep_R, weighted_mean=ev["radius"],
                                                 total_weight=ev["weight"], mesh_points=ev["n"]))
+            if ev["weight"] > 0 and ev["shell"] != 0:
                 okV = abs(float(results["volume_ratio"]) - ev["form"]/ev["shell"]) <= 1e-9*abs(ev["form"]/ev["shell"])
                 rec.check("S_volfraction_ratio_is_ratio_of_weighted_volumes", okV,
                           None if okV else dict(ctx, reported_ratio=float(results["volume_ratio"]),
